@@ -29,6 +29,18 @@ THEOREMS = [
     "C27_replay_partial",
     "C27_refuted_purge",
     "C27_continuation_partial",
+    "C27_write_order_any_stops",
+    "C27_replay_after_any_stops",
+    "C27_recovery_succeeds_after_any_stops",
+    "C27_keys_cfg_implies_keys",
+    "C27_recovered_world_replays_to_itself",
+    "C27_journal_table_all_lives",
+    "C27_mirror_every_call",
+    "C27_observed_order_is_journal_prefix",
+    "C27_observed_order_guard_needed",
+    "C27_table_source_shape",
+    "C27_recovered_continues_any_stops",
+    "C27_orphan_purge_once_per_life",
 ]
 EXPLANATION = (
     "PARTIAL. Lean model WfModel/Journal.lean: (A) the workflow_journal table with the five SqliteJournalCrud statements, "
@@ -96,6 +108,8 @@ TRUSTED_EXTRA = [
     "pyshims/asyncpg, pyshims/sqlalchemy: name-only import shims (Pool, Connection, Record, UniqueViolationError, create_pool, "
     "connect, pool.PoolConnectionProxy; engine.URL, engine.Engine)",
     "harness/gen/journal.py: AST extraction of journal call sites, write order, SQL and key formats",
+    "harness/gen/journal_table.py: text/AST extraction of the workflow_journal DDL (both dialects), constructor defaults of TaskJournal / "
+    "InternalDBOSAdapter, _get_or_create_journal, execute-then-commit shape of the SqliteJournalCrud writers, identifier quoting",
     "SQLite: atomic commit, AUTOINCREMENT ids, ORDER BY",
 ]
 
@@ -270,6 +284,18 @@ class JournalImpl:
             return "ok"
         if f == ["dump"]:
             return self.dump()
+        if f == ["c27xhist"]:
+            # K1 makes no wait calls: the life's history is empty; what is compared is the row-numbering flag (raw, out-of-order
+            # inserts make it 0), the cursor and the journal as loaded
+            conn = sqlite3.connect(self.path)
+            try:
+                seqs = [r[0] for r in conn.execute("SELECT seq_num FROM workflow_journal WHERE run_id=? ORDER BY id", (self.run,))]
+            finally:
+                conn.close()
+            jr = _sync(self.crud.load(self.run))
+            idx = self.tj._replay_index
+            return (f"returned=- fresh=- wf={int(seqs == list(range(len(seqs))))} nofallback=1 prefix={int([] == jr[:idx])} "
+                    f"idx={idx} journal={_ks(jr)}")
         return "bad-op"
 
 
@@ -291,7 +317,7 @@ def gen_k1_stream(rng: random.Random, n: int) -> list[str]:
         elif r < 0.32:
             ops.append("load")
         elif r < 0.42:
-            ops.append(rng.choice(["next", "replaying", "has", "areplaying", "areplaying"]))
+            ops.append(rng.choice(["next", "replaying", "has", "areplaying", "areplaying", "c27xhist"]))
         elif r < 0.50:
             ops.append("advance")
         elif r < 0.58:
@@ -331,7 +357,7 @@ def gen_k1_stream(rng: random.Random, n: int) -> list[str]:
 
 MALFORMED = ["", "record", "record|", "record|a,b", "record|-", "insert|r1|x|a:0", "insert|r1|1", "insert||1|a:0", "boot|", "boot",
              "truncate|r1|-1", "purge|x", "purge", "wait|1|a:0|a:0|2|-", "wait|x|a:0|a:0|0|-", "wait|1|a:0", "frobnicate", "load|r1",
-             "addop|r1|x|n", "purgeops|r1"]
+             "addop|r1|x|n", "purgeops|r1", "c27xhist|r1", "c27xhist|"]
 
 
 def k1(env: Env, out: Outcome, workdir: str) -> None:
@@ -340,7 +366,7 @@ def k1(env: Env, out: Outcome, workdir: str) -> None:
     # hand-picked: out-of-order raw inserts then load; record after reload; purge with and without entries
     streams.append(["new", "boot|r1", "insert|r1|2|c:0", "insert|r1|0|a:0", "insert|r2|0|b:1", "insert|r1|1|b:0", "rawload|r1", "load",
                     "areplaying", "next", "advance", "areplaying", "next", "advance", "areplaying", "advance", "areplaying", "next", "replaying",
-                    "record|a:1", "areplaying", "rawload|r1", "dump",
+                    "record|a:1", "areplaying", "c27xhist", "rawload|r1", "dump",
                     "boot|r1", "load", "has", "addop|r1|5|x", "addop|r1|9|y", "addop|r2|9|z", "purge|5", "boot|r2", "purge|0", "dump",
                     "boot|r3", "has", "purge|0", "record|a:0", "record|a:0", "boot|r3", "load", "truncate|r3|1", "rawload|r3", "dump"])
     streams.append(["new", "boot|r1"] + MALFORMED + ["dump"])
@@ -353,7 +379,7 @@ def k1(env: Env, out: Outcome, workdir: str) -> None:
     out.evaluations += len(flat)
     out.traces_validated += len(streams)
     for l in flat:
-        out.count("k1_op:" + l.split("|")[0] if l.split("|")[0] in ("new", "boot", "load", "next", "replaying", "areplaying", "has", "advance", "record", "purge", "insert", "rawload", "delete", "truncate", "purgeops", "addop", "dump") else "k1_op:malformed")
+        out.count("k1_op:" + l.split("|")[0] if l.split("|")[0] in ("new", "boot", "load", "next", "replaying", "areplaying", "has", "advance", "record", "purge", "insert", "rawload", "delete", "truncate", "purgeops", "addop", "dump", "c27xhist") else "k1_op:malformed")
     d = diff_streams(MODEL, flat, model_out, impl_out, context="K1 TaskJournal/SqliteJournalCrud")
     if d is not None:
         out.divergences.append(d)
@@ -396,6 +422,72 @@ def wait_out(wc: Any) -> str:
     return f"{head} fallback={int(wc.fallback)} purged={int(wc.purged)} entries={es} idx={wc.idx_after} journal={journal}"
 
 
+# --------------------------------------------------------------------------
+# history observables (vocabulary of C27_journal_table_all_lives / C27_observed_order_is_journal_prefix)
+
+
+def _table(wc: Any) -> list:
+    """rows of the run after the call, in id order: read back from the table when the observer could, else the shadow list"""
+    return list(wc.table_after) if getattr(wc, "table_after", None) is not None else list(wc.journal_after)
+
+
+def hist_out(life: list, rows_at_boot: list) -> str:
+    """what driver op `c27xhist` prints, computed from the real adapter's calls of the current life"""
+    rows = _table(life[-1]) if life else list(rows_at_boot)
+    rets = [w.returned for w in life if w.returned is not None]
+    fresh = [w.returned for w in life if w.returned is not None and w.recorded]
+    jr = [k for (_s, k) in sorted(rows, key=lambda r: r[0])]
+    idx = life[-1].idx_after if life else 0
+    wf = [s for (s, _k) in rows] == list(range(len(rows)))
+    return (f"returned={_ks(rets)} fresh={_ks(fresh)} wf={int(wf)} nofallback={int(not any(w.fallback for w in life))} "
+            f"prefix={int(rets == jr[:idx])} idx={idx} journal={_ks(jr)}")
+
+
+def check_history(life: list, rows_at_boot: list, label: str, case: dict, out: Outcome) -> None:
+    """S, on the real adapter and the real table, after EVERY call of a process life (independent of the model):
+    rows numbered 0,1,2,.. in insertion order; table = table before the call + the completion the fresh branch handed
+    out (no row lost to the orphan purge, none duplicated); `_entries` mirrors the table; and - fallback-free lives -
+    the completions handed to the control loop so far are the first `_replay_index` entries of the journal, all of it
+    once the replay is over."""
+    prev = [k for (_s, k) in rows_at_boot]
+    rets: list[str] = []
+    fallback = False
+    purges = 0
+    for i, w in enumerate(life):
+        rows = _table(w)
+        keys = [k for (_s, k) in rows]
+        fallback = fallback or bool(w.fallback)
+        if w.returned is not None:
+            rets.append(w.returned)
+        bad = None
+        if [s for (s, _k) in rows] != list(range(len(rows))):
+            bad = ("row_numbering_broken", f"rows (seq_num, key) in id order: {rows}")
+        elif keys != prev + ([w.returned] if (w.recorded and w.returned is not None) else []):
+            bad = ("journal_not_old_plus_fresh", f"before {prev}, call returned {w.returned} recorded={w.recorded}, after {keys}")
+        elif w.entries_after is None or list(w.entries_after) != keys:
+            bad = ("entries_differ_from_table", f"_entries {w.entries_after} vs table {keys}")
+        elif not fallback and (w.idx_after > len(keys) or rets != keys[: w.idx_after]):
+            bad = ("observed_not_journal_prefix", f"handed to the loop {rets}, journal {keys}, _replay_index {w.idx_after}")
+        elif not fallback and w.idx_after >= len(keys) and rets != keys:
+            bad = ("observed_not_whole_journal_after_replay", f"handed to the loop {rets}, journal {keys}")
+        # the orphan purge (C27_orphan_purge_once_per_life): at most once per life, never in a call that hands out a replayed completion
+        purges += 1 if w.purged else 0
+        if bad is None and purges > 1:
+            bad = ("orphan_purge_twice_in_one_life", f"purge_operations_from ran again (function id at entry {w.fid_at_entry})")
+        elif bad is None and w.purged and w.expected is not None and w.expected in w.inflight and w.returned is not None:
+            bad = ("orphan_purge_in_replaying_call", f"the call replayed {w.returned} and purged operation outputs beyond {w.fid_at_entry}")
+        if bad is not None:
+            out.violations.append(Violation(f"C27/history_invariant[{bad[0]}]", f"{label}: wait call {i}: {bad[1]}", case))
+            return
+        prev = keys
+    out.count("hist_lives_checked")
+    out.count("hist_calls_checked", len(life))
+    if fallback:
+        out.count("hist_lives_with_fallback")
+    if purges:
+        out.count("hist_lives_with_orphan_purge")
+
+
 def k2(env: Env, out: Outcome, workdir: str) -> None:
     """the real InternalDBOSAdapter.wait_for_next_task driven with scripted asyncio tasks"""
     from ..dbos_standin import runs as R
@@ -411,7 +503,11 @@ def k2(env: Env, out: Outcome, workdir: str) -> None:
     def gen_script() -> list[dict]:
         sc: list[dict] = []
         journal: list[str] = []
-        for _proc in range(rng.randint(1, 3)):
+        if rng.random() < 0.4:
+            # rows of ANOTHER run in the same table (out of order, gaps): no call of r1 may touch them (frame clause)
+            for s_ in rng.sample(range(0, 9), rng.randint(1, 3)):
+                sc.append({"op": "foreign", "seq": s_, "key": rng.choice(KEYS)})
+        for _proc in range(rng.randint(1, 4)):
             sc.append({"op": "boot"})
             idx = 0
             for _ in range(rng.randint(2, 9)):
@@ -467,8 +563,10 @@ def k2(env: Env, out: Outcome, workdir: str) -> None:
         lines: list[str] = ["new"]
         impl_out: list[str] = ["ok"]
         tr = R.Trace()
+        lives: list[list] = []  # [index of the life's first wait in tr.waits, rows of r1 read from the table at boot]
 
-        async def main(loop: Any, sc: list[dict] = sc, path: str = path, tr: Any = tr, lines: list[str] = lines, impl_out: list[str] = impl_out) -> None:
+        async def main(loop: Any, sc: list[dict] = sc, path: str = path, tr: Any = tr, lines: list[str] = lines, impl_out: list[str] = impl_out,
+                       lives: list[list] = lives) -> None:
             adapter = None
             ctx = DBOSContext(workflow_id="r1", function_id=0)
             _ctx.set(ctx)
@@ -480,6 +578,14 @@ def k2(env: Env, out: Outcome, workdir: str) -> None:
                     impl_out.append("ok")
                     lines.append("areplaying")
                     impl_out.append("1" if adapter.is_replaying() else "0")
+                    lives.append([len(tr.waits), R._journal_rows(path, "r1")])
+                    lines.append("c27xhist")
+                    impl_out.append(hist_out([], lives[-1][1]))
+                    continue
+                if step["op"] == "foreign":
+                    line = f"insert|r2|{step['seq']}|{step['key']}"
+                    lines.append(line)
+                    impl_out.append(impl0.step(line))
                     continue
                 if step["op"] == "addop":
                     conn = sqlite3.connect(path)
@@ -520,6 +626,8 @@ def k2(env: Env, out: Outcome, workdir: str) -> None:
                 impl_out.append("1" if adapter.is_replaying() else "0")
                 lines.append("dump")
                 impl_out.append(impl0.dump())
+                lines.append("c27xhist")
+                impl_out.append(hist_out(tr.waits[lives[-1][0]:], lives[-1][1]))
 
         R._Obs.trace = tr
         R._Obs.db = None
@@ -529,6 +637,13 @@ def k2(env: Env, out: Outcome, workdir: str) -> None:
             R._Obs.trace = None
         all_lines += lines
         all_impl += impl_out
+        for li, (w0, rows0) in enumerate(lives):
+            w1 = lives[li + 1][0] if li + 1 < len(lives) else len(tr.waits)
+            check_history(tr.waits[w0:w1], rows0, f"scripted life {li + 1} of {len(lives)}",
+                          {"kind": "k2", "lines": list(lines), "impl": list(impl_out)}, out)
+        out.count(f"k2_lives_per_script:{len(lives)}")
+        if any(st["op"] == "foreign" for st in sc):
+            out.count("k2_scripts_with_foreign_run_rows")
         for wc in tr.waits:
             out.count("k2_wait:" + wait_out(wc).split(" ")[0])
             out.nontrivial(("k2", wc.mode, wc.fallback, wc.returned is None, wc.purged, len(wc.done_at_return) > 1))
@@ -559,11 +674,13 @@ def k3_lines(tr: Any, initial_rows: list) -> tuple[list[str], list[str]]:
         impl.append("ok")
     lines.append(f"boot|{RUN_ID}")
     impl.append("ok")
-    for wc in tr.waits:
+    for i, wc in enumerate(tr.waits):
         lines.append(wait_line(wc))
         impl.append(wait_out(wc))
         lines.append("areplaying")
         impl.append("1" if wc.replaying_after else "0")
+        lines.append("c27xhist")
+        impl.append(hist_out(tr.waits[: i + 1], initial_rows))
     return lines, impl
 
 
@@ -843,6 +960,7 @@ def run_case(spec: dict, seed: int, out: Outcome, env: Env, *, server: dict | No
     out.count("wait_timeouts", sum(1 for w in ref.waits if w.returned is None and w.inflight))
     out.count("multi_done_waits", sum(1 for w in ref.waits if len(w.done_at_return) > 1))
     check_process(ref, "fresh run", dict(base_case, snapshot=None), out)
+    check_history(ref.waits, [], "fresh run", dict(base_case, snapshot=None), out)
     lines, impl = k3_lines(ref, [])
     streams = [(lines, impl, dict(base_case, snapshot=None))]
     if det and ref.outcome[0] != "result":
@@ -876,6 +994,8 @@ def run_case(spec: dict, seed: int, out: Outcome, env: Env, *, server: dict | No
         tag = check_recovery(ref, s, rec, case, out, det)
         if tag != "timer":  # after a replay that is known to diverge (timer finding) the process is not a valid execution
             check_process(rec, "recovered run", case, out)
+        # the table / mirror / observed-prefix invariants hold for ANY call sequence (C27_journal_table_all_lives): checked even then
+        check_history(rec.waits, [tuple(r) for r in s["journal"]], "recovered run", case, out)
         if server and tag == "ok" and ref.outcome[0] == "result":
             check_store(ref, s, rec, case, out, det=det)
         out.count("recovery:" + tag)
@@ -893,6 +1013,7 @@ def run_case(spec: dict, seed: int, out: Outcome, env: Env, *, server: dict | No
                 tag2 = check_recovery(rec, x, rec2, case2, out, det and tag == "ok")
                 if tag2 != "timer":
                     check_process(rec2, "twice recovered run", case2, out)
+                check_history(rec2.waits, [tuple(r) for r in x["journal"]], "twice recovered run", case2, out)
                 if server and tag == "ok" and tag2 == "ok" and ref.outcome[0] == "result":
                     check_store(rec, x, rec2, case2, out, det=det, uninterrupted=ref)
                 out.count("recovery2:" + tag2)
